@@ -6,6 +6,7 @@ import sys
 import time
 
 from . import engine, pp, report
+from .props import constfold  # noqa: F401  (registers the constant-branch oracle in sym)
 
 PROPS = ["C%02d" % i for i in range(1, 19)]
 
